@@ -138,7 +138,9 @@ class S3Compatible(Backend, short_name='S3C'):
         encoded_canonical_uri = quote(canonical_uri)
         url = self.url + encoded_canonical_uri
         if query:
-            query_string = urlencode(sorted(query.items()))
+            # Signature V4 wants spaces as %20 (not '+') and everything but unreserved
+            # characters percent-encoded, and this must be exactly what we send
+            query_string = urlencode(sorted(query.items()), quote_via=quote)
             url += f'?{query_string}'
         else:
             query_string = ''
